@@ -160,3 +160,18 @@ def scale_texts(rng):
         yield 'select q from ' + '(select q from ' * d + 't' + ') s' * d + ' where x = 1'
     yield '; '.join('select %d from t%d where x = %d' % (i, i, i) for i in range(400))
     yield 'create procedure p() begin ' + ' '.join('if a%d then update t set x = %d; end if;' % (i, i) for i in range(150)) + ' end; select 1'
+
+
+def assignment_texts(rng, n):
+    """statements around `:=`: group_assignment is the one pass that absorbs MORE than its two operands (it runs to the next `;`), so several
+    `:=` in one statement, a `;` in the middle and tokens behind it exercise the index bookkeeping of the grouping driver (stale / negative
+    indices).  The first part is a fixed family, the rest random sequences over the same alphabet."""
+    fixed = ["select @a := 1, @b := 2; -- done", "x := 1, y := 2; z", "a := b := c; d := e", "set @a := 1; -- c\nselect 2", "@a := 1, @b := 2, @c := 3; x y",
+             "declare x int := 1; y := 2; end", "select (a := 1), (b := 2); -- t", "a := (b := 1; c := 2); d", "x := 1;", ":= := ;", "a := ; := b ; c",
+             "select a := 1 from t where b := 2 order by c; /* t */", "call p(a := 1, b := 2); x"]
+    out = list(fixed)
+    sym = ['@a', 'x', ':=', ':=', '1', ',', ';', ';', '-- c\n', '/* c */', 'select', '(', ')', 'y z', '=', 'as', '::int']
+    while len(out) < n:
+        k = rng.randint(3, 12)
+        out.append(' '.join(rng.choice(sym) for _ in range(k)) if rng.random() < 0.8 else ''.join(rng.choice(sym) + rng.choice(['', ' ']) for _ in range(k)))
+    return out[:n]
